@@ -23,7 +23,7 @@ RULE = ("seeded random configurations: circuit (0-3 heralds of 0-2 photons incl.
         "lossy, post-selection kind, #inputs, detector mode, photons, modes); non-trivial = heralds or loss or "
         "post-selection present")
 MANDATORY = ["herald_with_photon", "herald_in_ne_out", "post_selection_rejects", "threshold_bunched_candidate",
-             "lossy", "predicate_post_selection", "rule_post_selection", "error_rate_checked"]
+             "lossy", "predicate_post_selection", "rule_post_selection", "error_rate_checked", "rule_added_in_place"]
 DECIDING = ["rel_analyzer_vs_sampler", "rel_quick_vs_sampler", "rel_simulator_vs_sampler", "rel_performance"]
 BUDGET = {"quick": 30, "thorough": 480}
 ASSUMPTIONS = ["relations are checked between the objects' own results (tolerance 1e-7, which covers the documented "
@@ -39,7 +39,7 @@ def make_post_selection(lw, rng, k):
     if r < 0.35 or k == 0:
         return None, "none", (lambda s: True)
     if r < 0.7:
-        multi = bool(rng.random() < 0.3)
+        multi = bool(rng.random() < 0.5)
         ps = lw.PostSelection(multi_rules=multi)
         rules = []
         used = set()
@@ -295,6 +295,38 @@ def run(ctx):
             elif sim_res is None:
                 ctx.violation(f"simulator raised {outcome['simulator']} on a configuration the sampler accepts",
                               case=case, mechanism="simulator_raises", monitor="relation checker")
+            # (g) the same long-lived objects after a rule is added in place to their PostSelection
+            if ps_kind == "rules" and getattr(ps_obj, "multi_rules", False) and qs_dist is not None and ps_obj.modes:
+                m_add = int(rng.choice(ps_obj.modes))
+                nums = [(0, 1), (1,), (0,), (1, 2)][int(rng.integers(4))]
+                if m_add < k:
+                    ps_obj.add(m_add, nums)
+                    ctx.bucket("rule_added_in_place")
+                    pred2 = (lambda s, p=pred, m=m_add, ns=nums: p(s) and s[m] in ns)
+                    a2 = {}
+                    for full, p in sdists[0].items():
+                        if heralds_ok(full):
+                            v = tuple(visible(full))
+                            if sum(v) == nph and pred2(list(v)) and (pc or max(v, default=0) <= 1):
+                                a2[v] = a2.get(v, 0.0) + p
+                    tot2 = sum(a2.values())
+                    try:
+                        q2 = {tuple(st): p for st, p in qs.probability_distribution.items()}
+                    except Exception:  # noqa: BLE001
+                        q2 = None
+                    ctx.count("rel_quick_after_in_place_rule")
+                    if q2 is not None and tot2 > 1e-6:
+                        keys = set(a2) | set(q2)
+                        worst = max(abs(a2.get(q, 0.0) / tot2 - q2.get(q, 0.0)) for q in keys)
+                        if worst > 1e-6:
+                            ctx.violation(f"after adding rule ({m_add}, {nums}) to its PostSelection in place the quick "
+                                          f"sampler differs from the conditioned sampler distribution by {worst:.3g}",
+                                          case=case, mechanism="quick_vs_sampler_after_in_place_rule",
+                                          monitor="relation checker")
+                    elif q2 is None and tot2 > 1e-6:
+                        ctx.violation("quick sampler raised after a rule was added in place although the conditioned "
+                                      f"sampler distribution has mass {tot2:.6f}", case=case,
+                                      mechanism="quick_raises_after_in_place_rule", monitor="relation checker")
         elif "ok" in (outcome["simulator"], outcome["analyzer"], outcome["quick"]):
             ctx.violation(f"sampler raised {outcome['sampler']} on a configuration another object accepts",
                           case=case, mechanism="sampler_raises", monitor="relation checker")
